@@ -12,7 +12,7 @@ Import ListNotations.
 Definition resolve_name (p : prog) (n : name) : res ty :=
   match find_decl p n with
   | Some d => Ok (match d_kind d with DEnum => Enum n | _ => Cls n end)
-  | None => Raise NameError
+  | None => Raise TypeResolutionError   (* a name no loaded module declares: manually_search_for_class_name gives up *)
   end.
 Fixpoint resolve (p : prog) (t : ty) : res ty :=
   match t with
@@ -72,9 +72,12 @@ Definition public_fields (T : table) (c : name) : list fdecl :=
   filter (fun f => negb (f_private f)) (lookup_tab T c).
 
 (* ---- WrappedField.resolved_type when the module cannot see a name (TYPE_CHECKING-only import) ----
-   get_type_hints(cls) evaluates every annotation of every class of the MRO (base first) in that class's module;
-   the first name it cannot find is e.  The retry passes the diagram's classes plus e as local namespace;
-   a second unknown name is not caught. *)
+   get_type_hints(cls) evaluates every annotation of every class of the MRO (base first) in that class's module and
+   raises NameError for the first name it cannot find.  Since 91db0c8 the retry starts from the diagram's classes as
+   local namespace and adds every further missing name it finds in the loaded modules, one after the other, until
+   the hints evaluate: every declared name resolves ([resolve] above), whatever the module can see.
+   [old_retry] is the retry before 91db0c8 (diagram classes plus the FIRST missing name only; a second unknown name
+   was not caught), kept for the regression theorem. *)
 Definition hidden_of (p : prog) (k : name) : list name :=
   match find_decl p k with Some d => d_hidden d | None => [] end.
 Fixpoint leaf_names (t : ty) : list name :=
@@ -93,19 +96,14 @@ Fixpoint chain (fuel : nat) (p : prog) (c : name) : list name :=
 Definition unresolved (p : prog) (c : name) : list name :=
   flat_map (fun k => flat_map (fun f => filter (fun n => mem n (hidden_of p k)) (leaf_names (f_ann f)))
                               (own_fields p k)) (chain (length p) p c).
-Definition hints_check (p : prog) (ns : list name) (c : name) : res unit :=
+Definition old_retry (p : prog) (ns : list name) (c : name) : res unit :=
   match unresolved p c with
   | [] => Ok tt
   | e :: _ => if forallb (fun n => mem n ns || Pos.eqb n e) (unresolved p c) then Ok tt else Raise NameError
   end.
-(* resolved_type is first read for the first public field; a class without public fields is never resolved *)
-Definition class_edges (p : prog) (T : table) (ns : list name) (c : name) : res (list edge) :=
-  match public_fields T c with
-  | [] => Ok []
-  | fs => bind (hints_check p ns c) (fun _ => mconcat (field_edge p ns c) fs)
-  end.
+
 Definition assoc_edges (p : prog) (ns : list name) : res (list edge) :=
-  let T := tab p in mconcat (class_edges p T ns) ns.
+  let T := tab p in mconcat (fun c => mconcat (field_edge p ns c) (public_fields T c)) ns.
 
 Definition build (p : prog) (cs : list name) : res graph :=
   let ns := nodes_of cs in
@@ -114,7 +112,7 @@ Definition build (p : prog) (cs : list name) : res graph :=
 (* ---- printing ---- *)
 Definition exn_sx (e : exn) : sx :=
   SZ (match e with TypeError => 1 | ValueError => 2 | IndexError => 3 | AttributeError => 4
-               | MissingContainedTypeOfContainer => 5 | NameError => 6 | StopIteration => 7 end)%Z.
+               | MissingContainedTypeOfContainer => 5 | NameError => 6 | StopIteration => 7 | TypeResolutionError => 8 end)%Z.
 Definition build_sx (p : prog) (cs : list name) : sx :=
   match build p cs with Ok g => SL [SZ 0%Z; graph_sx g] | Raise e => SL [SZ 1%Z; exn_sx e] end.
 (* every translated predicate on one (declared) annotation *)
